@@ -582,6 +582,12 @@ let rec map f = function
 | [] -> []
 | a :: t -> (f a) :: (map f t)
 
+(** val flat_map : ('a1 -> 'a2 list) -> 'a1 list -> 'a2 list **)
+
+let rec flat_map f = function
+| [] -> []
+| x :: t -> app (f x) (flat_map f t)
+
 (** val fold_right : ('a2 -> 'a1 -> 'a1) -> 'a1 -> 'a2 list -> 'a1 **)
 
 let rec fold_right f a0 = function
@@ -593,6 +599,12 @@ let rec fold_right f a0 = function
 let rec forallb f = function
 | [] -> true
 | a :: l0 -> (&&) (f a) (forallb f l0)
+
+(** val filter : ('a1 -> bool) -> 'a1 list -> 'a1 list **)
+
+let rec filter f = function
+| [] -> []
+| x :: l0 -> if f x then x :: (filter f l0) else filter f l0
 
 (** val repeat : 'a1 -> nat -> 'a1 list **)
 
@@ -2447,6 +2459,28 @@ and pr_stmts n0 = function
 
 let print_block b =
   pr_block O b
+
+(** val exp_vars : cexp -> char list list **)
+
+let rec exp_vars = function
+| CVar x -> x :: []
+| CBin (_, a, b) -> app (exp_vars a) (exp_vars b)
+| CUn (_, a) -> exp_vars a
+| CNot a -> exp_vars a
+| CDeref a -> exp_vars a
+| CCall (_, args) -> args_vars args
+| CMeth (o, _, _, args) -> app (exp_vars o) (args_vars args)
+| CField (o, _, _) -> exp_vars o
+| CCast (_, a) -> exp_vars a
+| CSubI (a, b) -> app (exp_vars a) (exp_vars b)
+| COpaque (_, ids) -> ids
+| _ -> []
+
+(** val args_vars : cexps -> char list list **)
+
+and args_vars = function
+| CNil -> []
+| CCons (e, r) -> app (exp_vars e) (args_vars r)
 
 (** val d_cexp_fuel : nat -> sexp -> cexp option **)
 
@@ -7863,6 +7897,558 @@ let run_run = function
                | None -> bad_input)
             | _ :: _ -> bad_input))))
 
+(** val occ : char list -> char list list -> nat **)
+
+let occ x l =
+  length (filter (eqb0 x) l)
+
+(** val exp_occ : char list -> cexp -> nat **)
+
+let exp_occ x e =
+  occ x (exp_vars e)
+
+(** val opt_occ : char list -> char list option -> nat **)
+
+let opt_occ x = function
+| Some y -> occ x (y :: [])
+| None -> O
+
+(** val decls_occ : char list -> decl list -> nat **)
+
+let rec decls_occ x = function
+| [] -> O
+| d :: r ->
+  add
+    (add (occ x (d.d_name :: []))
+      (match d.d_init with
+       | Some e -> exp_occ x e
+       | None -> O)) (decls_occ x r)
+
+(** val stmt_occ : char list -> stmt -> nat **)
+
+let rec stmt_occ x = function
+| SSet (y, _, e) -> add (occ x (y :: [])) (exp_occ x e)
+| SPush (y, _, e) -> add (occ x (y :: [])) (exp_occ x e)
+| SClear y -> occ x (y :: [])
+| SFetch (_, target, _, _, _) -> occ x (target :: [])
+| SIota (v, b) -> occ x (v :: (b :: []))
+| SUser (_, ids, t) -> add (occ x ids) (opt_occ x t)
+| SLine (_, ids) -> occ x ids
+| SFor (y, e, b) -> add (add (occ x (y :: [])) (exp_occ x e)) (block_occ x b)
+| SIf (c, b, els) ->
+  add (add (exp_occ x c) (block_occ x b))
+    (match els with
+     | Some b2 -> block_occ x b2
+     | None -> O)
+| SBlk b -> block_occ x b
+| _ -> O
+
+(** val block_occ : char list -> block -> nat **)
+
+and block_occ x = function
+| Blk (ds, body) -> add (decls_occ x ds) (stmts_occ x body)
+
+(** val stmts_occ : char list -> stmts -> nat **)
+
+and stmts_occ x = function
+| SNil -> O
+| SCons (s, r) -> add (stmt_occ x s) (stmts_occ x r)
+
+(** val stmt_asg : char list -> stmt -> nat **)
+
+let rec stmt_asg x = function
+| SSet (y, _, _) -> occ x (y :: [])
+| SFor (_, _, b) -> block_asg x b
+| SIf (_, b, els) ->
+  add (block_asg x b) (match els with
+                       | Some b2 -> block_asg x b2
+                       | None -> O)
+| SBlk b -> block_asg x b
+| _ -> O
+
+(** val block_asg : char list -> block -> nat **)
+
+and block_asg x = function
+| Blk (_, body) -> stmts_asg x body
+
+(** val stmts_asg : char list -> stmts -> nat **)
+
+and stmts_asg x = function
+| SNil -> O
+| SCons (s, r) -> add (stmt_asg x s) (stmts_asg x r)
+
+type tri =
+| TNone
+| TOk
+| TBad
+
+(** val tri_ok : tri -> bool **)
+
+let tri_ok = function
+| TOk -> true
+| _ -> false
+
+(** val is_none : 'a1 option -> bool **)
+
+let is_none = function
+| Some _ -> false
+| None -> true
+
+(** val fa_stmt : char list -> stmt -> tri **)
+
+let rec fa_stmt res0 s =
+  if Nat.eqb (stmt_occ res0 s) O
+  then TNone
+  else (match s with
+        | SSet (y, cast, v) ->
+          (match cast with
+           | Some _ -> TBad
+           | None ->
+             if (&&) (eqb0 y res0) (Nat.eqb (exp_occ res0 v) O)
+             then TOk
+             else TBad)
+        | SFor (y, e, b) ->
+          if Nat.eqb (add (occ res0 (y :: [])) (exp_occ res0 e)) O
+          then fa_block res0 b
+          else TBad
+        | SIf (c, b, els) ->
+          if Nat.eqb (exp_occ res0 c) O
+          then (match fa_block res0 b with
+                | TNone ->
+                  (match els with
+                   | Some b2 -> fa_block res0 b2
+                   | None -> TNone)
+                | x -> x)
+          else TBad
+        | SBlk b -> fa_block res0 b
+        | _ -> TBad)
+
+(** val fa_block : char list -> block -> tri **)
+
+and fa_block res0 = function
+| Blk (ds, body) ->
+  if Nat.eqb (decls_occ res0 ds) O then fa_stmts res0 body else TBad
+
+(** val fa_stmts : char list -> stmts -> tri **)
+
+and fa_stmts res0 = function
+| SNil -> TNone
+| SCons (s, r) ->
+  (match fa_stmt res0 s with
+   | TNone -> fa_stmts res0 r
+   | x -> x)
+
+(** val is_guard : bool -> char list -> cexp -> bool **)
+
+let is_guard pol res0 = function
+| CVar y -> (&&) pol (eqb0 y res0)
+| CNot a ->
+  (match a with
+   | CVar y -> (&&) (negb pol) (eqb0 y res0)
+   | _ -> false)
+| _ -> false
+
+(** val ug_stmt : bool -> char list -> stmt -> nat **)
+
+let rec ug_stmt pol res0 = function
+| SSet (y, _, _) -> occ res0 (y :: [])
+| SFor (_, _, b) -> ug_block pol res0 b
+| SIf (c, b, els) ->
+  if (&&) (is_guard pol res0 c) (is_none els)
+  then if Nat.eqb (block_asg res0 b) O
+       then O
+       else if (&&) (Nat.eqb (block_asg res0 b) (S O))
+                 (tri_ok (fa_block res0 b))
+            then O
+            else S (S O)
+  else add (ug_block pol res0 b)
+         (match els with
+          | Some b2 -> ug_block pol res0 b2
+          | None -> O)
+| SBlk b -> ug_block pol res0 b
+| _ -> O
+
+(** val ug_block : bool -> char list -> block -> nat **)
+
+and ug_block pol res0 = function
+| Blk (_, body) -> ug_stmts pol res0 body
+
+(** val ug_stmts : bool -> char list -> stmts -> nat **)
+
+and ug_stmts pol res0 = function
+| SNil -> O
+| SCons (s, r) -> add (ug_stmt pol res0 s) (ug_stmts pol res0 r)
+
+(** val rec_bool_op : decl -> stmts -> bool **)
+
+let rec_bool_op d body =
+  let res0 = d.d_name in
+  (&&)
+    ((&&)
+      ((&&)
+        ((&&) (eqb0 d.d_type ('b'::('o'::('o'::('l'::[])))))
+          (is_none d.d_init)) (tri_ok (fa_stmts res0 body)))
+      (Nat.leb (S (S O)) (stmts_asg res0 body)))
+    ((||) (Nat.eqb (ug_stmts true res0 body) (S O))
+      (Nat.eqb (ug_stmts false res0 body) (S O)))
+
+(** val ie_stmt : char list -> stmt -> tri **)
+
+let rec ie_stmt res0 s =
+  if Nat.eqb (stmt_occ res0 s) O
+  then TNone
+  else (match s with
+        | SFor (y, e, b) ->
+          if Nat.eqb (add (occ res0 (y :: [])) (exp_occ res0 e)) O
+          then ie_block res0 b
+          else TBad
+        | SIf (c, b, els) ->
+          (match els with
+           | Some bE ->
+             if Nat.eqb (exp_occ res0 c) O
+             then if (&&)
+                       ((&&)
+                         ((&&) (Nat.eqb (block_asg res0 b) (S O))
+                           (Nat.eqb (block_asg res0 bE) (S O)))
+                         (Nat.eqb (block_occ res0 b) (S O)))
+                       (Nat.eqb (block_occ res0 bE) (S O))
+                  then TOk
+                  else (match ie_block res0 b with
+                        | TNone -> ie_block res0 bE
+                        | x -> x)
+             else TBad
+           | None ->
+             if Nat.eqb (exp_occ res0 c) O then ie_block res0 b else TBad)
+        | SBlk b -> ie_block res0 b
+        | _ -> TBad)
+
+(** val ie_block : char list -> block -> tri **)
+
+and ie_block res0 = function
+| Blk (ds, body) ->
+  if Nat.eqb (decls_occ res0 ds) O then ie_stmts res0 body else TBad
+
+(** val ie_stmts : char list -> stmts -> tri **)
+
+and ie_stmts res0 = function
+| SNil -> TNone
+| SCons (s, r) ->
+  (match ie_stmt res0 s with
+   | TNone -> ie_stmts res0 r
+   | x -> x)
+
+(** val rec_if_else : decl -> stmts -> bool **)
+
+let rec_if_else d body =
+  let res0 = d.d_name in
+  (&&)
+    ((&&)
+      ((&&) (eqb0 d.d_type ('d'::('o'::('u'::('b'::('l'::('e'::[])))))))
+        (is_none d.d_init)) (tri_ok (ie_stmts res0 body)))
+    (Nat.eqb (stmts_asg res0 body) (S (S O)))
+
+(** val is_capture : char list -> stmt -> bool **)
+
+let is_capture isf = function
+| SIf (c, b, els) ->
+  (match c with
+   | CVar y ->
+     let Blk (ds, body) = b in
+     (match body with
+      | SNil -> false
+      | SCons (s0, rest) ->
+        (match s0 with
+         | SSet (z0, cast, e) ->
+           (match cast with
+            | Some _ -> false
+            | None ->
+              (match e with
+               | CBool b0 ->
+                 if b0
+                 then false
+                 else (match els with
+                       | Some _ -> false
+                       | None ->
+                         (&&)
+                           ((&&) ((&&) (eqb0 y isf) (eqb0 z0 isf))
+                             (Nat.eqb (decls_occ isf ds) O))
+                           (Nat.eqb (stmts_occ isf rest) O))
+               | _ -> false))
+         | _ -> false))
+   | _ -> false)
+| _ -> false
+
+(** val is_throw_if : char list -> stmt -> bool **)
+
+let is_throw_if isf = function
+| SIf (c, b, els) ->
+  (match c with
+   | CVar y ->
+     let Blk (ds, body) = b in
+     (match ds with
+      | [] ->
+        (match body with
+         | SNil -> false
+         | SCons (s0, r) ->
+           (match s0 with
+            | SThrow _ ->
+              (match r with
+               | SNil -> (match els with
+                          | Some _ -> false
+                          | None -> eqb0 y isf)
+               | SCons (_, _) -> false)
+            | _ -> false))
+      | _ :: _ -> false)
+   | _ -> false)
+| _ -> false
+
+(** val fc_stmt : char list -> stmt -> tri **)
+
+let rec fc_stmt isf s =
+  if Nat.eqb (stmt_occ isf s) O
+  then TNone
+  else if is_capture isf s
+       then TOk
+       else (match s with
+             | SFor (y, e, b) ->
+               if Nat.eqb (add (occ isf (y :: [])) (exp_occ isf e)) O
+               then fc_block isf b
+               else TBad
+             | SIf (c, b, els) ->
+               if Nat.eqb (exp_occ isf c) O
+               then (match fc_block isf b with
+                     | TNone ->
+                       (match els with
+                        | Some b2 -> fc_block isf b2
+                        | None -> TNone)
+                     | x -> x)
+               else TBad
+             | SBlk b -> fc_block isf b
+             | _ -> TBad)
+
+(** val fc_block : char list -> block -> tri **)
+
+and fc_block isf = function
+| Blk (ds, body) ->
+  if Nat.eqb (decls_occ isf ds) O then fc_stmts isf body else TBad
+
+(** val fc_stmts : char list -> stmts -> tri **)
+
+and fc_stmts isf = function
+| SNil -> TNone
+| SCons (s, r) -> (match fc_stmt isf s with
+                   | TNone -> fc_stmts isf r
+                   | x -> x)
+
+(** val fi_after_loop : char list -> stmts -> bool **)
+
+let rec fi_after_loop isf = function
+| SNil -> false
+| SCons (s, r) ->
+  if Nat.eqb (stmt_occ isf s) O
+  then fi_after_loop isf r
+  else (&&) (is_throw_if isf s) (Nat.eqb (stmts_occ isf r) O)
+
+(** val fi_top : char list -> stmts -> bool **)
+
+let rec fi_top isf = function
+| SNil -> false
+| SCons (s, r) ->
+  if Nat.eqb (stmt_occ isf s) O
+  then fi_top isf r
+  else (match s with
+        | SFor (x, e, lb) ->
+          (&&)
+            ((&&)
+              ((&&) (Nat.eqb (add (occ isf (x :: [])) (exp_occ isf e)) O)
+                (Nat.eqb (block_occ isf lb) (S (S O))))
+              (tri_ok (fc_block isf lb))) (fi_after_loop isf r)
+        | _ -> false)
+
+(** val is_true_lit : cexp option -> bool **)
+
+let is_true_lit = function
+| Some c -> (match c with
+             | CBool b -> b
+             | _ -> false)
+| None -> false
+
+(** val rec_is_first : decl -> stmts -> bool **)
+
+let rec_is_first d body =
+  (&&)
+    ((&&) (eqb0 d.d_type ('b'::('o'::('o'::('l'::[])))))
+      (is_true_lit d.d_init)) (fi_top d.d_name body)
+
+(** val nn_stmt : char list -> stmt -> tri **)
+
+let rec nn_stmt x s =
+  if Nat.eqb (stmt_occ x s) O
+  then TNone
+  else (match s with
+        | SUser (_, ids, target) ->
+          (match target with
+           | Some t ->
+             if (&&) (eqb0 t x) (Nat.eqb (occ x ids) O) then TOk else TBad
+           | None -> TBad)
+        | SFor (y, e, b) ->
+          if Nat.eqb (add (occ x (y :: [])) (exp_occ x e)) O
+          then nn_block x b
+          else TBad
+        | SIf (c, b, els) ->
+          if Nat.eqb (exp_occ x c) O
+          then (match nn_block x b with
+                | TNone ->
+                  (match els with
+                   | Some b2 -> nn_block x b2
+                   | None -> TNone)
+                | x0 -> x0)
+          else TBad
+        | SBlk b -> nn_block x b
+        | _ -> TBad)
+
+(** val nn_block : char list -> block -> tri **)
+
+and nn_block x = function
+| Blk (ds, body) ->
+  if Nat.eqb (decls_occ x ds) O then nn_stmts x body else TBad
+
+(** val nn_stmts : char list -> stmts -> tri **)
+
+and nn_stmts x = function
+| SNil -> TNone
+| SCons (s, r) -> (match nn_stmt x s with
+                   | TNone -> nn_stmts x r
+                   | x0 -> x0)
+
+(** val rec_non_null : decl -> stmts -> bool **)
+
+let rec_non_null d body =
+  (&&)
+    ((&&)
+      ((&&) (eqb0 d.d_type ('b'::('o'::('o'::('l'::[]))))) (is_none d.d_init))
+      (tri_ok (nn_stmts d.d_name body))) (Nat.eqb (stmts_asg d.d_name body) O)
+
+type verdict = { v_kind : char list; v_name : char list; v_ok : bool }
+
+(** val classify : decl -> stmts -> verdict list **)
+
+let classify d body =
+  let n0 = d.d_name in
+  if prefix ('b'::('o'::('o'::('l'::('_'::('o'::('p'::[]))))))) n0
+  then { v_kind = ('b'::('o'::('o'::('l'::('_'::('o'::('p'::[])))))));
+         v_name = n0; v_ok = (rec_bool_op d body) } :: []
+  else if prefix
+            ('i'::('f'::('_'::('e'::('l'::('s'::('e'::('_'::('r'::('e'::('s'::('u'::('l'::('t'::[]))))))))))))))
+            n0
+       then { v_kind =
+              ('i'::('f'::('_'::('e'::('l'::('s'::('e'::('_'::('r'::('e'::('s'::('u'::('l'::('t'::[]))))))))))))));
+              v_name = n0; v_ok = (rec_if_else d body) } :: []
+       else if prefix
+                 ('i'::('s'::('_'::('f'::('i'::('r'::('s'::('t'::[])))))))) n0
+            then { v_kind =
+                   ('i'::('s'::('_'::('f'::('i'::('r'::('s'::('t'::[]))))))));
+                   v_name = n0; v_ok = (rec_is_first d body) } :: []
+            else if prefix
+                      ('i'::('s'::('_'::('n'::('o'::('n'::('_'::('n'::('u'::('l'::('l'::[])))))))))))
+                      n0
+                 then { v_kind =
+                        ('i'::('s'::('_'::('n'::('o'::('n'::('_'::('n'::('u'::('l'::('l'::[])))))))))));
+                        v_name = n0; v_ok = (rec_non_null d body) } :: []
+                 else []
+
+(** val rec_stmt : stmt -> verdict list **)
+
+let rec rec_stmt = function
+| SFor (_, _, b) -> rec_block b
+| SIf (_, b, els) ->
+  app (rec_block b) (match els with
+                     | Some b2 -> rec_block b2
+                     | None -> [])
+| SBlk b -> rec_block b
+| _ -> []
+
+(** val rec_block : block -> verdict list **)
+
+and rec_block = function
+| Blk (ds, body) ->
+  app (flat_map (fun d -> classify d body) ds) (rec_stmts body)
+
+(** val rec_stmts : stmts -> verdict list **)
+
+and rec_stmts = function
+| SNil -> []
+| SCons (s, r) -> app (rec_stmt s) (rec_stmts r)
+
+(** val at_calls : cexp -> nat **)
+
+let rec at_calls = function
+| CBin (_, a, b) -> add (at_calls a) (at_calls b)
+| CUn (_, a) -> at_calls a
+| CNot a -> at_calls a
+| CDeref a -> at_calls a
+| CCall (_, args) -> at_calls_args args
+| CMeth (o, _, m, args) ->
+  add (add (if eqb0 m ('a'::('t'::[])) then S O else O) (at_calls o))
+    (at_calls_args args)
+| CField (o, _, _) -> at_calls o
+| CCast (_, a) -> at_calls a
+| CSubI (a, b) -> add (at_calls a) (at_calls b)
+| _ -> O
+
+(** val at_calls_args : cexps -> nat **)
+
+and at_calls_args = function
+| CNil -> O
+| CCons (e, r) -> add (at_calls e) (at_calls_args r)
+
+(** val decls_at : decl list -> nat **)
+
+let decls_at ds =
+  fold_right (fun d acc ->
+    add (match d.d_init with
+         | Some e -> at_calls e
+         | None -> O) acc) O ds
+
+(** val stmt_at : stmt -> nat **)
+
+let rec stmt_at = function
+| SSet (_, _, e) -> at_calls e
+| SPush (_, _, e) -> at_calls e
+| SFor (_, e, b) -> add (at_calls e) (block_at b)
+| SIf (c, b, els) ->
+  add (add (at_calls c) (block_at b))
+    (match els with
+     | Some b2 -> block_at b2
+     | None -> O)
+| SBlk b -> block_at b
+| _ -> O
+
+(** val block_at : block -> nat **)
+
+and block_at = function
+| Blk (ds, body) -> add (decls_at ds) (stmts_at body)
+
+(** val stmts_at : stmts -> nat **)
+
+and stmts_at = function
+| SNil -> O
+| SCons (s, r) -> add (stmt_at s) (stmts_at r)
+
+(** val s_verdict : verdict -> sexp **)
+
+let s_verdict v =
+  SList ((SAtom v.v_kind) :: ((SAtom v.v_name) :: ((s_bool v.v_ok) :: [])))
+
+(** val run_recognise : sexp -> sexp **)
+
+let run_recognise s =
+  match d_block s with
+  | Some b ->
+    s_tag ('o'::('k'::[])) ((SList
+      (map s_verdict (rec_block b))) :: ((s_nat (block_at b)) :: []))
+  | None -> bad_input
+
 (** val dispatch : char list -> sexp -> sexp **)
 
 let dispatch cmd arg =
@@ -7877,6 +8463,9 @@ let dispatch cmd arg =
             else if eqb0 cmd
                       ('c'::('p'::('p'::('.'::('r'::('u'::('n'::[])))))))
                  then run_run arg
-                 else s_tag
-                        ('u'::('n'::('k'::('n'::('o'::('w'::('n'::('-'::('c'::('o'::('m'::('m'::('a'::('n'::('d'::[])))))))))))))))
-                        ((SAtom cmd) :: [])
+                 else if eqb0 cmd
+                           ('c'::('0'::('4'::('.'::('r'::('e'::('c'::('o'::('g'::('n'::('i'::('s'::('e'::[])))))))))))))
+                      then run_recognise arg
+                      else s_tag
+                             ('u'::('n'::('k'::('n'::('o'::('w'::('n'::('-'::('c'::('o'::('m'::('m'::('a'::('n'::('d'::[])))))))))))))))
+                             ((SAtom cmd) :: [])
